@@ -354,6 +354,9 @@ func relCheck(w *run.Worker, st *relState, prop string, p *gen.Pipeline, src str
 		want, werr := rel.RunPipeline(p, db, st.in)
 		if werr != nil {
 			w.Count("reference_undefined", 1)
+			if f, ok := extra["family"].(string); ok {
+				w.Count("reference_undefined:"+f, 1)
+			}
 			continue
 		}
 		w.Count("transitions", int64(len(p.Ops))+countJoinOps(p))
@@ -470,6 +473,12 @@ func c02Main(r *run.Runner) {
 			relCheck(w, get(w), "C02", p, src, deepDBs, nil)
 		}
 	})
+	wideDBs := c02DBs(2)
+	if r.Thorough() {
+		wideDBs = dbs
+	}
+	nw := c02Wide(r, get, wideDBs)
+	r.Extra["wide"] = map[string]any{"programs": nw, "sizes": wideSizes(r.Thorough()), "databases": len(wideDBs)}
 	r.Extra["deep"] = map[string]any{"depth": d + 2, "variants": len(deep), "sequences": n3, "databases": len(deepDBs)}
 	r.Extra["bounds"] = map[string]any{"depth": d, "variants": len(c02Variants(false)), "sequences": n, "databases": len(dbs), "max_rows": m,
 		"reduced_depth": d + 1, "reduced_variants": len(c02Variants(true)), "reduced_sequences": n2}
